@@ -724,6 +724,9 @@ fn c12(tier: &str) -> Vec<String> {
 fn c13(tier: &str) -> Vec<String> {
     let th = tier == "thorough";
     let mut v = vec!["sock-unbuf:sink=udp".to_string(), "sock-unbuf:sink=udp6".into(), "sock-unbuf:sink=unix".into()];
+    // the Unix sinks address a path: a new server takes the path over while the old one stays open;
+    // buffered sinks dropped while their thread unwinds
+    v.push(format!("sock-rebind:depth={}", if th { 6 } else { 5 }));
     // caller-connected UDP sockets, the peer going away and coming back
     v.push(format!("sock-conn:depth={}", if th { 9 } else { 7 }));
     for cap in [0, 8, 16] {
